@@ -5,6 +5,7 @@ import BddModel.Raw
 import BddModel.Eda
 import BddModel.EdaFast
 import BddModel.Bits
+import BddModel.Driver
 /-! Line-protocol driver: one operation per input line, one canonical reply line.
 The Rust harness executes the same lines on the real crate and compares the replies. -/
 open P Arr
@@ -75,7 +76,8 @@ def canonRef : Nat → St → Ref → List Nat → String × List Nat
 
 /-- index of the first named handle equal to `r` -/
 def firstEq (env : Array Ref) (r : Ref) : Nat :=
-  match env.toList.idxOf? r with
+  -- (index 0 marks a retired name or the `Ref::ZERO` sentinel: never "the same handle" as anything)
+  match env.toList.findIdx? (fun x => x == r && x.idx != 0) with
   | some k => k
   | none => env.size
 
@@ -301,76 +303,91 @@ def pushRes (d : DState) (x : Res (St × Ref)) : DState × String :=
     let d := { d with env := #[] }
     ({ d with st := some s', env := env.push Ref.zero }, "panic " ++ e.toString)
 
+/-- names of collected nodes are retired in abstract mode (their bits may coincide with later results
+once the cell is reused; which cell that is depends on the allocation order) -/
+def retire (d : DState) (s' : St) : DState :=
+  if d.abs then
+    let env := d.env
+    let d := { d with env := #[] }
+    let env := env.map (fun r => if r.idx = 1 || Arr.rd s'.storage.occs r.idx then r else Ref.raw0)
+    { d with st := some s', env := env }
+  else { d with st := some s' }
+
+/-- every operation that can change the manager goes through the checked dispatcher `exec`
+(`BddModel/Driver.lean`): a request whose precondition fails in the model's state is refused (`bad`);
+`BddProofs/DriverGood.lean` proves that an accepted one is a step of the history closure -/
+def viaExec (d : DState) (s : St) (req : Req) (bad : String := "bad-op") : DState × String :=
+  match exec FUEL s req with
+  | .refused s => keep d s bad
+  | .handle x => pushRes d x
+  | .optBool (.ok (s', o)) =>
+    ({ d with st := some s' }, match o with | some true => "some1" | some false => "some0" | none => "none")
+  | .optBool (.error (e, s')) => ({ d with st := some s' }, "panic " ++ e.toString)
+  | .bool (.ok (s', o)) => ({ d with st := some s' }, boolS o)
+  | .bool (.error (e, s')) => ({ d with st := some s' }, "panic " ++ e.toString)
+  | .nat (s', n) => ({ d with st := some s' }, toString n)
+  | .unit (.ok s') => (retire d s', "ok")
+  | .unit (.error (e, s')) => ({ d with st := some s' }, "panic " ++ e.toString)
+
 /-- operations on the manager `s`; `d.st` is `none` while this runs -/
 def stepMgr (d : DState) (s : St) (toks : List String) : DState × String :=
   match toks with
-  | ["var", v] => match v.toNat? with | some v => pushRes d (mkVar s v) | none => keep d s "bad-op"
+  | ["var", v] => match v.toNat? with | some v => viaExec d s (.var v) | none => keep d s "bad-op"
   | ["node", v, lo, hi] =>
     match v.toNat?, hOf d.env s lo, hOf d.env s hi with
-    | some v, some lo, some hi =>
-      -- `mk_node` has a precondition the code does not check (the variable lies above both children);
-      -- the harness only sends ordered requests, so an unordered one means the two sides have already
-      -- diverged: refuse it instead of building an ill-formed diagram (whose walks need not be small)
-      let above (r : Ref) : Bool := isTerminal r || (r.idx != 0 && v < s.var r)
-      if v = 0 || (above lo && above hi) then pushRes d (mkNode s v lo hi)
-      else keep d s "unordered"
+    -- `mk_node` has a precondition the code does not check (the variable lies above both children);
+    -- the harness only sends ordered requests, so an unordered one means the two sides have already
+    -- diverged: it is refused instead of building an ill-formed diagram (whose walks need not be small)
+    | some v, some lo, some hi => viaExec d s (.node v lo hi) "unordered"
     | _, _, _ => keep d s "bad-op"
   | ["not", a] => match hOf d.env s a with | some a => pushRes d (.ok (s, a.not)) | none => keep d s "bad-op"
   | ["ite", a, b, c] =>
     match hOf d.env s a, hOf d.env s b, hOf d.env s c with
-    | some a, some b, some c => pushRes d (applyIte FUEL s a b c)
+    | some a, some b, some c => viaExec d s (.ite a b c)
     | _, _, _ => keep d s "bad-op"
-  | ["and", a, b] => match hOf d.env s a, hOf d.env s b with | some a, some b => pushRes d (applyAnd FUEL s a b) | _, _ => keep d s "bad-op"
-  | ["or", a, b] => match hOf d.env s a, hOf d.env s b with | some a, some b => pushRes d (applyOr FUEL s a b) | _, _ => keep d s "bad-op"
-  | ["xor", a, b] => match hOf d.env s a, hOf d.env s b with | some a, some b => pushRes d (applyXor FUEL s a b) | _, _ => keep d s "bad-op"
-  | ["eq", a, b] => match hOf d.env s a, hOf d.env s b with | some a, some b => pushRes d (applyEq FUEL s a b) | _, _ => keep d s "bad-op"
-  | ["imply", a, b] => match hOf d.env s a, hOf d.env s b with | some a, some b => pushRes d (applyImply FUEL s a b) | _, _ => keep d s "bad-op"
-  | "andmany" :: rs => match hsOf d.env s rs with | some rs => pushRes d (andMany FUEL s Ref.one rs) | none => keep d s "bad-op"
-  | "ormany" :: rs => match hsOf d.env s rs with | some rs => pushRes d (orMany FUEL s Ref.zero rs) | none => keep d s "bad-op"
+  | ["and", a, b] => match hOf d.env s a, hOf d.env s b with | some a, some b => viaExec d s (.and a b) | _, _ => keep d s "bad-op"
+  | ["or", a, b] => match hOf d.env s a, hOf d.env s b with | some a, some b => viaExec d s (.or a b) | _, _ => keep d s "bad-op"
+  | ["xor", a, b] => match hOf d.env s a, hOf d.env s b with | some a, some b => viaExec d s (.xor a b) | _, _ => keep d s "bad-op"
+  | ["eq", a, b] => match hOf d.env s a, hOf d.env s b with | some a, some b => viaExec d s (.eq a b) | _, _ => keep d s "bad-op"
+  | ["imply", a, b] => match hOf d.env s a, hOf d.env s b with | some a, some b => viaExec d s (.imply a b) | _, _ => keep d s "bad-op"
+  | "andmany" :: rs => match hsOf d.env s rs with | some rs => viaExec d s (.andMany rs) | none => keep d s "bad-op"
+  | "ormany" :: rs => match hsOf d.env s rs with | some rs => viaExec d s (.orMany rs) | none => keep d s "bad-op"
   | "cube" :: lits =>
     match lits.mapM String.toInt? with
-    | some ls => pushRes d (cube s (ls.map litOfInt))
+    | some ls => viaExec d s (.cube (ls.map litOfInt))
     | none => keep d s "bad-op"
   | "clause" :: lits =>
     match lits.mapM String.toInt? with
-    | some ls => pushRes d (clause s (ls.map litOfInt))
+    | some ls => viaExec d s (.clause (ls.map litOfInt))
     | none => keep d s "bad-op"
   | ["subst", f, v, b] =>
     match hOf d.env s f, v.toNat? with
-    | some f, some v =>
-      pushRes d (match substitute FUEL s f v (b == "1") [] with
-        | .ok (s', r, _) => .ok (s', r) | .error e => .error e)
+    | some f, some v => viaExec d s (.subst f v (b == "1"))
     | _, _ => keep d s "bad-op"
   | "substm" :: f :: lits =>
     match hOf d.env s f, lits.mapM String.toInt? with
-    | some f, some ls =>
-      pushRes d (match substMulti FUEL s f (ls.map litOfInt) [] with
-        | .ok (s', r, _) => .ok (s', r) | .error e => .error e)
+    | some f, some ls => viaExec d s (.substMulti f (ls.map litOfInt))
     | _, _ => keep d s "bad-op"
   | "cofcube" :: f :: lits =>
     match hOf d.env s f, lits.mapM String.toInt? with
-    | some f, some ls =>
-      pushRes d (match cofCube FUEL s f (ls.map litOfInt) [] with
-        | .ok (s', r, _) => .ok (s', r) | .error e => .error e)
+    | some f, some ls => viaExec d s (.cofCube f (ls.map litOfInt))
     | _, _ => keep d s "bad-op"
   | ["compose", f, v, g] =>
     match hOf d.env s f, v.toNat?, hOf d.env s g with
-    | some f, some v, some g => pushRes d (composeTop FUEL s f v g)
+    | some f, some v, some g => viaExec d s (.compose f v g)
     | _, _, _ => keep d s "bad-op"
-  | ["constrain", f, g] => match hOf d.env s f, hOf d.env s g with | some f, some g => pushRes d (constrain FUEL s f g) | _, _ => keep d s "bad-op"
-  | ["restrict", f, g] => match hOf d.env s f, hOf d.env s g with | some f, some g => pushRes d (restrict FUEL s f g) | _, _ => keep d s "bad-op"
+  | ["constrain", f, g] => match hOf d.env s f, hOf d.env s g with | some f, some g => viaExec d s (.constrain f g) | _, _ => keep d s "bad-op"
+  | ["restrict", f, g] => match hOf d.env s f, hOf d.env s g with | some f, some g => viaExec d s (.restrict f g) | _, _ => keep d s "bad-op"
   | "exprc" :: _ :: ts | "expr" :: ts =>
-    match ts.mapM (fun t => (parseTok d.env t).bind (fun k => match k with
-        | Tok.h r => if r.idx ≠ 0 && Arr.rd s.storage.occs r.idx then some k else none
-        | k => some k)) with
+    match ts.mapM (parseTok d.env) with
     | some tl =>
       match parseRust tl with
-      | some pv => pushRes d (pv.eval FUEL s)
+      | some pv => viaExec d s (.expr pv.toExpr)   -- (`PV.eval` of a bare handle is `Expr.eval` of its term)
       | none => keep d s "bad-op"
     | none => keep d s "bad-op"
   | "exprtree" :: ts =>
-    match parseExprTree d.env (fun r => r.idx ≠ 0 && Arr.rd s.storage.occs r.idx) (ts.length + 1) ts with
-    | some (e, []) => pushRes d (e.eval FUEL s)
+    match parseExprTree d.env (fun _ => true) (ts.length + 1) ts with
+    | some (e, []) => viaExec d s (.expr e)
     | _ => keep d s "bad-op"
   | ["low", f] => match hOf d.env s f with | some f => pushRes d (.ok (s, s.lowNode f)) | none => keep d s "bad-op"
   | ["high", f] => match hOf d.env s f with | some f => pushRes d (.ok (s, s.highNode f)) | none => keep d s "bad-op"
@@ -394,18 +411,11 @@ def stepMgr (d : DState) (s : St) (toks : List String) : DState × String :=
     | _, _ => keep d s "bad-op"
   | ["itec", a, b, c] =>
     match hOf d.env s a, hOf d.env s b, hOf d.env s c with
-    | some a, some b, some c =>
-      match iteConstant FUEL s a b c with
-      | .ok (s', o) => ({ d with st := some s' },
-          match o with | some true => "some1" | some false => "some0" | none => "none")
-      | .error (e, s') => ({ d with st := some s' }, "panic " ++ e.toString)
+    | some a, some b, some c => viaExec d s (.itec a b c)
     | _, _, _ => keep d s "bad-op"
   | ["implies", a, b] =>
     match hOf d.env s a, hOf d.env s b with
-    | some a, some b =>
-      match isImplies FUEL s a b with
-      | .ok (s', o) => ({ d with st := some s' }, boolS o)
-      | .error (e, s') => ({ d with st := some s' }, "panic " ++ e.toString)
+    | some a, some b => viaExec d s (.implies a b)
     | _, _ => keep d s "bad-op"
   | ["satcount", f, n] =>
     match hOf d.env s f, n.toNat? with
@@ -437,10 +447,7 @@ def stepMgr (d : DState) (s : St) (toks : List String) : DState × String :=
       ", real_size: " ++ toString s.storage.realSize ++ " }")
   | "heldgc" :: which :: rs =>
     match hsOf d.env s rs, (match which with | "cache" => some 0 | "size" => some 1 | "storage" => some 2 | _ => none) with
-    | some _, some w =>
-      match collectGarbageHeld w s with
-      | .ok s' => ({ d with st := some s' }, "ok")
-      | .error (e, s') => ({ d with st := some s' }, "panic " ++ e.toString)
+    | some rs, some w => viaExec d s (.heldgc w rs)
     | _, _ => keep d s "bad-op"
   | ["pathsi.open", f] =>
     match hOf d.env s f with
@@ -457,7 +464,7 @@ def stepMgr (d : DState) (s : St) (toks : List String) : DState × String :=
   | ["pathsi.close"] => keep { d with pit := none } s "ok"
   | ["size", f] =>
     match hOf d.env s f with
-    | some f => let p := size s f; ({ d with st := some p.1 }, toString p.2)
+    | some f => viaExec d s (.size f)
     | none => keep d s "bad-op"
   | "desc" :: rs =>
     match hsOf d.env s rs with
@@ -465,10 +472,7 @@ def stepMgr (d : DState) (s : St) (toks : List String) : DState × String :=
     | none => keep d s "bad-op"
   | "gc" :: rs =>
     match hsOf d.env s rs with
-    | some rs =>
-      match collectGarbage s rs with
-      | .ok s' => ({ d with st := some s' }, "ok")
-      | .error (e, s') => ({ d with st := some s' }, "panic " ++ e.toString)
+    | some rs => viaExec d s (.gc rs)
     | none => keep d s "bad-op"
   | ["bracket", f] =>
     match hOf d.env s f with
